@@ -292,6 +292,9 @@ func runC10(c *Check) {
 	c.noHiddenSessionState()
 	c.outputFileTruncated()
 	c.parsedBeforeStored()
+	c.lineValuesNotCarried()
+	// an option assignment is one critical section of the store's mutex (shared with C20-R4)
+	c.relabel(c.snapshotPublish, "C20-R4", "C10-R9", nil)
 	// a request's page does not depend on the requests running beside it: state that the web
 	// handlers initialise lazily is only touched inside its sync.Once (shared with C20-R1)
 	c.relabel(c.onceFields, "C20-R1", "C10-R8", func(o *Obligation) bool {
